@@ -546,18 +546,7 @@ func TestC04Odd(t *testing.T) {
 	defer silenceAs("odd")()
 	col := evid.New("C04", "odd", "")
 	defer col.Flush()
-	var nilStruct *oddEmbedded
-	var nilMap map[string]interface{}
-	one := 1
-	pone := &one
-	objects := map[string]interface{}{
-		"nil": nil, "typed-nil-struct-pointer": nilStruct, "nil-map": nilMap, "int": 5, "string": "text", "slice": []int{1, 2},
-		"chan": make(chan int), "func": func() {}, "unexported-fields": oddUnexported{Name: "n", secret: 1}, "pointer-to-unexported": &oddUnexported{Name: "n"},
-		"embedded-struct": oddEmbedded{embeddedInner{1, "in"}, 2}, "exported-struct-field": oddExportedEmbedded{embeddedInner{1, "in"}, 2},
-		"map[string]string": map[string]string{"Name": "x"}, "map[int]int": map[int]int{1: 2}, "pointer-to-pointer": &pone,
-		"map-with-odd-values": map[string]interface{}{"Name": uint8(3), "Count": []interface{}{nil, map[string]interface{}{"a": nil}, [2]int{1, 2}}, "F": func() {}},
-		"empty-struct":        struct{}{}, "bool": true, "float": 1.5,
-	}
+	objects := oddHostObjects()
 	scripts := []string{"return Name;", "return Count;", "return 1;", "return len(Name) + 1;", "if (Name) { return true; } return false;", "foreach k in Count { print(k); } return Name;"}
 	for name, obj := range objects {
 		for _, s := range scripts {
@@ -592,6 +581,24 @@ func TestC04Odd(t *testing.T) {
 			col.Class("odd-object:" + name)
 			col.Case(name+"|"+s, true, func() interface{} { return map[string]string{"object": name, "script": s} })
 		}
+	}
+}
+
+// oddHostObjects: things a host may pass as the object that are not a struct or
+// a string-keyed map of the documented kinds (also used by C10: whatever the
+// engine says about them goes to standard output or into an error).
+func oddHostObjects() map[string]interface{} {
+	var nilStruct *oddEmbedded
+	var nilMap map[string]interface{}
+	one := 1
+	pone := &one
+	return map[string]interface{}{
+		"nil": nil, "typed-nil-struct-pointer": nilStruct, "nil-map": nilMap, "int": 5, "string": "text", "slice": []int{1, 2},
+		"chan": make(chan int), "func": func() {}, "unexported-fields": oddUnexported{Name: "n", secret: 1}, "pointer-to-unexported": &oddUnexported{Name: "n"},
+		"embedded-struct": oddEmbedded{embeddedInner{1, "in"}, 2}, "exported-struct-field": oddExportedEmbedded{embeddedInner{1, "in"}, 2},
+		"map[string]string": map[string]string{"Name": "x"}, "map[int]int": map[int]int{1: 2}, "pointer-to-pointer": &pone,
+		"map-with-odd-values": map[string]interface{}{"Name": uint8(3), "Count": []interface{}{nil, map[string]interface{}{"a": nil}, [2]int{1, 2}}, "F": func() {}},
+		"empty-struct":        struct{}{}, "bool": true, "float": 1.5,
 	}
 }
 
